@@ -205,6 +205,8 @@ class LDAWrapper(LinearSolver):
                 x0_loc[idia, ...] = 0
                 for x in x_data:
                     beta = x0_loc[isel, ...].T @ x.conj() / (x.conj() @ x)
+                    if np.iscomplexobj(x) and not np.iscomplexobj(x0_loc):
+                        continue  # Complex vector cannot be subtracted from a real initial guess
                     x0_loc[isel, ...] -= np.outer(x, beta)
             else:
                 x0_loc = None
@@ -224,8 +226,8 @@ class LDAWrapper(LinearSolver):
                 badd = (A @ xnew[..., i])[isel, ...]
                 for x, b in zip(x_data, b_data):
                     beta = badd @ b.conj() / (b.conj() @ b)
-                    badd -= beta * b
-                    xadd -= beta * x
+                    badd = badd - beta * b  # Not in-place, as the stored vectors may be complex
+                    xadd = xadd - beta * x
                 bnrm = np.linalg.norm(badd)
                 if not np.isfinite(bnrm) or bnrm == 0:
                     continue
